@@ -5,7 +5,7 @@ import WaVerif.Lemmas.C10Final
 Every `theorem` in this file is an obligation of the check and is axiom-audited.  All statements are
 about `run c ops`, the state of the abstract allocator (Model/C10.lean, tied to malloc.wat by the
 correspondence run) after an ARBITRARY history `ops` of mallocs and frees, for every configuration
-with `CfgWF c` and every history with `OpOK c op` for all its operations.  They are proved by
+with `CfgWF c` (incl. `maxPages ≤ 32767`) and every history with `OpOK c op` (requests ≤ 2^30) for all its operations.  They are proved by
 induction over the history: `inv_init`, `inv_step` (Lemmas/C10*.lean).
 
 * `sumf (cov x) L`  = number of blocks of `L` (header + payload) containing address `x`
@@ -155,22 +155,32 @@ theorem growth_ignores_slack_witness : ¬ MallocFailsOnlyWhenUnsatisfiableStatem
   revert this
   decide
 
-/-! ## what the guards exclude (both replayed on the real code by checks/c10.py) -/
+/-! ## the two former exclusions (repaired in /repo by 785884e and 786cf0e)
 
-/-- `live_in_heap` without the `OpOK` guard on `malloc(0)` -/
+Before the repairs these two statements were FALSE of model and code (witnesses `malloc0_nofixed_witness`,
+`bump_wrap_witness`, replayed by the probes `malloc0-nofixed-*` and `bump-i32-wrap*` of checks/c10.py, which
+still run on every check).  They are now theorems. -/
+
+/-- `live_in_heap` with no exclusion of `malloc(0)` when the fixed lists are disabled -/
 def LiveInHeapUnguardedStatement : Prop :=
   ∀ (c : Config) (ops : List Op), CfgWF c → (∀ op ∈ ops, ReqOK op) →
     ∀ b ∈ (run c ops).live, c.heapBase + 48 ≤ b.addr
 
-/-- ... is FALSE: with the fixed lists disabled `malloc(0)` takes the size-0 ring head itself
-(`heapBase+32`) off the ring and returns its payload address `heapBase+40` -/
-theorem malloc0_nofixed_witness : ¬ LiveInHeapUnguardedStatement := by
-  intro h
-  have := h ⟨1, 2, 100, 1000, 0⟩ [.malloc 0] (by decide) (by decide)
-  revert this
-  decide
+theorem reqOK_opOK (c : Config) (op : Op) (h : ReqOK op) : OpOK c op := by
+  cases op <;> exact h
 
-/-- `live_in_heap` with the design's original configuration guard `maxPages ≤ 32767` instead of `≤ 16383` -/
+/-- with the fixed lists disabled a request of 0 bytes now gets a block of 8 bytes (the size-0 ring head at
+`heapBase+32` can no longer match), so no guard on `malloc(0)` is needed -/
+theorem malloc0_nofixed_repaired : LiveInHeapUnguardedStatement := by
+  intro c ops hwf hops b hb
+  exact ((live_in_heap c ops ⟨hwf, fun op ho => reqOK_opOK c op (hops op ho)⟩).1 b hb).1
+
+theorem malloc0_nofixed_block_size (c : Config) (h : c.cap = 0) : effSize c 0 = 8 := by
+  simp [effSize, ptrAndFixedSize, h, align8]
+
+example : (run ⟨1, 2, 100, 1000, 0⟩ [.malloc 0]).live = [⟨1048, 8, 0⟩] := by decide
+
+/-- `live_in_heap` for every maximum up to 32767 pages (all addresses signed-positive) -/
 def LiveInMemoryMax32767Statement : Prop :=
   ∀ (c : Config) (ops : List Op),
     (0 < c.stackPtr ∧ c.stackPtr < c.heapBase ∧ c.heapBase % 8 = 0 ∧ c.heapBase + 48 < c.pages * 65536 ∧
@@ -178,13 +188,15 @@ def LiveInMemoryMax32767Statement : Prop :=
     (∀ op ∈ ops, OpOK c op) →
     ∀ b ∈ (run c ops).live, b.addr + 8 + b.size ≤ (run c ops).pages * 65536
 
-/-- ... is FALSE: with the heap base at 2^30 (1 GiB + 64 KiB of initial memory) `malloc(2^30)` makes
-`heap_ptr + block` wrap past 2^31; the signed comparison with `heap_top` then skips `memory.grow` and the block
-extends beyond linear memory (the same happens after growing there: `malloc(2^30)` twice from a small heap) -/
-theorem bump_wrap_witness : ¬ LiveInMemoryMax32767Statement := by
-  intro h
-  have := h ⟨16385, 32767, 100, 1073741824, 3⟩ [.malloc 8, .malloc 1073741824] (by decide) (by decide)
-  revert this
-  decide
+/-- the unsigned comparison in `$heap_new_allocation` sends `heap_ptr + block ≥ 2^31` to `memory.grow`, which
+fails against the maximum: no block ever extends beyond linear memory -/
+theorem bump_wrap_repaired : LiveInMemoryMax32767Statement := by
+  intro c ops hwf hops b hb
+  have h := live_in_heap c ops ⟨hwf, hops⟩
+  have := (h.1 b hb).2
+  omega
+
+/-- the former witness history now ends with `malloc(2^30) = 0` and an intact heap -/
+example : (malloc (run ⟨16385, 32767, 100, 1073741824, 3⟩ [.malloc 8]) 1073741824).ret = 0 := by decide
 
 end WaVerif.C10
